@@ -364,11 +364,19 @@ func (e *env) finish(v goja.Value, err error, timedOut *bool) obs {
 	return o
 }
 
-func (e *env) run(src string) obs {
+func (e *env) run(src string) (o obs) {
 	timedOut := false
 	t := time.AfterFunc(3*time.Second, func() { timedOut = true; e.rt.Interrupt("watchdog") })
+	defer t.Stop()
+	defer func() {
+		if x := recover(); x != nil {
+			// a Go panic escaping RunString: observed as "the host crashed" (the events so far are dropped, the
+			// model's Crashed outcome carries none either); the implementation model I predicts exactly this
+			// when it executes an unpatched nil placeholder
+			o = obs{out: "OStuck", note: fmt.Sprintf("HOSTPANIC: %v", x)}
+		}
+	}()
 	v, err := e.rt.RunString(src)
-	t.Stop()
 	return e.finish(v, err, &timedOut)
 }
 
@@ -506,6 +514,9 @@ func runCase(c *Case) vh.Record {
 		term = fmt.Sprintf("CBuiltin %s %s %s %s %s", coqIter(c.It), want, st, vh.CoqList(o.events), o.out)
 	default:
 		panic("unknown case kind")
+	}
+	if strings.HasPrefix(o.note, "HOSTPANIC") {
+		tags["hostpanic"] = true
 	}
 	outTag := o.out
 	if i := strings.IndexByte(outTag, ' '); i > 0 {
